@@ -78,7 +78,13 @@ def gen_capacity(ctx, k, cap=None, fill=None):
     rng = ctx.sub_rng('cap', k)
     cap = rng.randrange(256) if cap is None else cap
     sc = Scn(seed=ctx.seed * 100000 + k, watchdog=120000)
-    sc.add(*bus_lines([(0, 0, 0)]), f'bus cap {cap}', normal_start_line())
+    if fill is None and k % 5 == 2:
+        # the session under test runs in low-level debug mode, where nobody announces a capacity (64 bytes are in force), after a session
+        # whose interface announced much more
+        sc.add(*bus_lines([(0, 0, 0)]), f'bus cap {rng.randrange(128, 256)}', normal_start_line(), 'quiesce', 'stop', 'bus clear', *bus_lines([(0, 0, 0)]), 'debug 1', 'start @null 0')
+        cap = 0
+    else:
+        sc.add(*bus_lines([(0, 0, 0)]), f'bus cap {cap}', normal_start_line())
     eff = max(64, cap)
     calls = []
     seq = None   # numbering restarts after the reset in start; the oracle takes the first observed seq as base
@@ -206,9 +212,8 @@ def evaluate(ctx, r, calls, cap, kind, meta):
         return
     start_ret = None
     for e in r.events:
-        if e.get('e') == 'ret' and e.get('f') == 'bidib_start_pointer':
-            start_ret = e['n']
-            break
+        if e.get('e') == 'ret' and e.get('f') == 'bidib_start_pointer' and e['n'] < upto:
+            start_ret = e['n']          # the session under test is the last one (an earlier session may have announced another capacity)
     chunks = [bytes.fromhex(e['hex']) for e in r.events if e.get('e') == 'tx' and start_ret is not None and start_ret < e['n'] < upto]
     pre = [bytes.fromhex(e['hex']) for e in r.events if e.get('e') == 'tx' and (start_ret is None or e['n'] < start_ret)]
     stream = b''.join(chunks)
